@@ -17,6 +17,7 @@ import (
 	"os"
 	"os/exec"
 	"path/filepath"
+	"regexp"
 	"strconv"
 	"strings"
 	"sync/atomic"
@@ -380,6 +381,7 @@ func parseNativeOut(out string, kinds string) (string, error) {
 // parseTableOut reads the LAST table of the output: live_table redraws the whole table whenever a
 // refresh interval has passed, and without a terminal the redraws are simply appended.
 func parseTableOut(out string, kinds string) (string, error) {
+	out = ansiEscape.ReplaceAllString(out, "")
 	var rows [][]string
 	state := 0 // 0: before a table, 1: top border seen, 2: header seen, 3: in rows
 	for _, line := range strings.Split(out, "\n") {
@@ -445,5 +447,7 @@ func canonOutput(res cliResult, mode, kinds string) string {
 	}
 	return s
 }
+
+var ansiEscape = regexp.MustCompile("\x1b\\[[0-9;]*[A-Za-z]")
 
 var _ = io.EOF
